@@ -6,7 +6,7 @@ SPEC = {
     "harness": "c06",
     "harness_args": {"quick": ["-n", 200, "-q", 25], "thorough": ["-n", 2500, "-q", 30]},
     "level": "proof",
-    "tie": "T3: the hand-written model (searchParallel, back-fill, select via msgpack Query + nested rebuild, CompareAny / SortSearchResults, the offset/limit slice in both variants) is run by the Lean driver on the same requests as a real shard (bbolt file and memory backend alternate). The answers of the query-tree leaves (ids, _hybridScore bit patterns) and the stored documents are taken from the real shard; the driver merges, back-fills, selects, sorts and pages and must print exactly the rows the shard returns (ids in order, _hybridScore bits, decoded data). CompareAny (pairs of random scalars, of values around 2^24 / 2^53 / 2^62 / 1.7e18 / the ends of int64 and uint64 in every width and signedness, of integers and float32 beside their float64 neighbours), reflect.Kind numbers and float32 addition are also compared on scalar op lines. The documented behaviour is evaluated directly on every real answer by a Go oracle (numbers of any two kinds compared exactly with math/big).",
+    "tie": "T3: the hand-written model (evalTree = indexManager.Search recursing through _and/_or, searchParallel, the rank sort of SearchPoints, back-fill, select via msgpack Query + nested rebuild, CompareAny / SortSearchResults, the offset/limit slice in both variants) is run by the Lean driver on the same requests as a real shard (bbolt file and memory backend alternate). The answers of the query-tree leaves (ids, _hybridScore bit patterns) and the stored documents are taken from the real shard; the driver merges, back-fills, selects, sorts and pages and must print exactly the rows the shard returns (ids in order, _hybridScore bits, decoded data). CompareAny (pairs of random scalars, of values around 2^24 / 2^53 / 2^62 / 1.7e18 / the ends of int64 and uint64 in every width and signedness, of integers and float32 beside their float64 neighbours), reflect.Kind numbers and float32 addition are also compared on scalar op lines. The documented behaviour is evaluated directly on every real answer by a Go oracle (numbers of any two kinds compared exactly with math/big).",
     "required_theorems": [
         "Sema.C06.C06_merge", "Sema.C06.C06_merge_single", "Sema.C06.C06_rank_order", "Sema.C06.C06_rank_sorter_exists",
         "Sema.C06.C06_single_sub_repaired", "Sema.C06.C06_backfill",
@@ -15,6 +15,7 @@ SPEC = {
         "Sema.C06.C06_sort_ties", "Sema.C06.C06_cmp_same_kind", "Sema.C06.C06_cmp_numeric", "Sema.C06.C06_cmp_integers",
         "Sema.C06.C06_float_value_order", "Sema.C06.C06_cmp_cross_kind", "Sema.C06.C06_sort_numeric",
         "Sema.C06.C06_page", "Sema.C06.C06_page_overflow_witness", "Sema.C06.C06_page_repaired",
+        "Sema.C06.C06_tree", "Sema.C06.C06_answer", "Sema.C06.C06_search_page",
     ],
     "trusted_base": [
         "msgpack: Decoder.Query(path) = lookup along map keys (first match), error when the path meets a non-container; Decoder.Skip succeeds on the bytes of a stored document (they are well-formed msgpack); decoding into `any` yields int8/16/32/64, uint8/16/32/64, float32/64 by encoded width; Decode into the partly built map sets every top-level key (array indices and `*` inside paths are outside the model)",
